@@ -3,7 +3,6 @@ package main
 // Calls: contracts, inlining, builtins, lock primitives; static write-set analysis for loop havoc.
 
 import (
-	"os"
 	"strconv"
 	"fmt"
 	"go/token"
